@@ -81,7 +81,11 @@ class Body:
 
     def mut_borrowed(self):
         """locals whose address is taken mutably (may be written through a pointer)."""
+        c = getattr(self, "_mutb", None)
+        if c is not None:
+            return c
         out = set()
+        self._mutb = out
         for bb in self.blocks:
             for st in bb["statements"]:
                 k, v = kind_of(st["kind"])
